@@ -68,7 +68,12 @@ Inductive c11case :=
      format, -show-ignored, per package: configuration chain and the problems found with every check enabled
      (-checks "*" -show-ignored) -> exit, output *)
 | CCli (f : format) (all : list string) (checks fail : option string) (si : bool)
-       (pkgs : list (list (option (list string)) * list problem)) (obs_exit : Z) (obs_out : list rendered).
+       (pkgs : list (list (option (list string)) * list problem)) (obs_exit : Z) (obs_out : list rendered)
+  (* one run of the binary with patterns naming only some packages: per package of the import cone its kind
+     (named / failed dependency / dependency that loaded), configuration chain and the problems the `./...` run
+     with every check enabled reports for it -> exit, output *)
+| CCone (f : format) (all : list string) (checks fail : option string) (si : bool)
+        (pkgs : list (pkind * list (option (list string)) * list problem)) (obs_exit : Z) (obs_out : list rendered).
 
 Inductive diffkind := DMap | DParse | DList | DAllowed | DExit | DOutput.
 
@@ -89,6 +94,10 @@ Definition cli_selected (merge : list string -> list (option (list string)) -> o
            (all : list string) (checks : option string) (pkgs : list (list (option (list string)) * list problem)) : list problem :=
   flat_map (fun pk => let eff := merge default_checks (fst pk) (cli_checks checks) in
                       filter (fun p => not_a_check (p_cat p) || allowed all eff (p_cat p)) (snd pk)) pkgs.
+
+Definition cone_selected (merge : list string -> list (option (list string)) -> option (list string) -> list string)
+           (all : list string) (checks : option string) (pkgs : list (pkind * list (option (list string)) * list problem)) : list problem :=
+  flat_map (fun pk => lint_package all (merge default_checks (snd (fst pk)) (cli_checks checks)) (fst (fst pk)) (snd pk)) pkgs.
 
 (* --- the specification evaluated on the observed behaviour --- *)
 Definition spec_effective (default : list string) (chain : list (option (list string))) (cli : option (list string)) : list string :=
@@ -119,6 +128,10 @@ Definition case_violation (c : c11case) : list diffkind :=
       let sel := cli_selected spec_effective all checks pkgs in
       (if Z.eqb (spec_exit f all (cli_fail fail) si false sel) oe then [] else [DExit]) ++
       (if mset_eqb rendered_eqb (spec_output f si false sel) oo then [] else [DOutput])
+  | CCone f all checks fail si pkgs oe oo =>
+      let sel := cone_selected spec_effective all checks pkgs in
+      (if Z.eqb (spec_exit f all (cli_fail fail) si false sel) oe then [] else [DExit]) ++
+      (if mset_eqb rendered_eqb (spec_output f si false sel) oo then [] else [DOutput])
   end.
 
 (* --- the transcription of the code --- *)
@@ -139,6 +152,10 @@ Definition case_mismatch (c : c11case) : list diffkind :=
       (if mset_eqb rendered_eqb (format_output f (to_print all fail si nc ps)) oo then [] else [DOutput])
   | CCli f all checks fail si pkgs oe oo =>
       let sel := cli_selected effective_checks all checks pkgs in
+      (if Z.eqb (exit_status f all (cli_fail fail) si false sel) oe then [] else [DExit]) ++
+      (if mset_eqb rendered_eqb (format_output f (to_print all (cli_fail fail) si false sel)) oo then [] else [DOutput])
+  | CCone f all checks fail si pkgs oe oo =>
+      let sel := cone_selected effective_checks all checks pkgs in
       (if Z.eqb (exit_status f all (cli_fail fail) si false sel) oe then [] else [DExit]) ++
       (if mset_eqb rendered_eqb (format_output f (to_print all (cli_fail fail) si false sel)) oo then [] else [DOutput])
   end.
